@@ -14,6 +14,7 @@ ENCR = ['aes128', 'aes256']
 INTEG = ['sha1', 'sha256', 'sha512']
 PRF = ['sha1', 'sha256', 'sha512']
 DH = ['modp2048', 'modp3072', 'modp4096', 'modp6144', 'modp8192', 'ecp256', 'ecp384', 'ecp521']
+KDF = None          # set by the check: plan_eval.PlanKdf driven by spec/KeySchedule.tla
 HISTORY = ['add_A', 'rekey_child_B', 'rekey_ike_B', 'rekey_child_A', 'rekey_ike_A', 'add_B', 'rekey_child_B']
 
 
@@ -47,9 +48,9 @@ def history_configs(rnd, n):
     return out
 
 
-def run_history(cfg, ops, seed):
+def run_history(cfg, ops, seed, kdf=None):
     w = world.World(opts_by_ep=cfg, opts={'v6': cfg['A']['v6']}, seed=seed, nonce_len=16 + seed % 200)
-    s = session.Session(w)
+    s = session.Session(w, kdf=kdf or KDF)
     done = []
     try:
         port = cfg['A'].get('peer_port', 0)
@@ -79,6 +80,11 @@ def run_history(cfg, ops, seed):
 
 
 def run(v, tier, for_c04=False):
+    global KDF
+    import plan_eval
+    plans, res = plan_eval.generate_plans()
+    KDF = plan_eval.PlanKdf(plans)
+    v.coverage['keyschedule_tla'] = {'ike_plans': len(plans['ike']), 'child_plans': len(plans['child'])}
     rnd = random.Random(common.SEED)
     suites = ike_suites()
     if tier == 'quick':
@@ -113,7 +119,7 @@ def run(v, tier, for_c04=False):
             v.violation(f'negotiation history {[d[0] for d in done]} + next: {err}', {'config': cfg, 'done': done},
                         signature={'component': 'matrix:' + err.kind, 'class': 'history'},
                         replay={'kind': 'matrix', 'config': cfg, 'ops': ops, 'seed': common.SEED + 1000 + i})
-    v.coverage['matrix'] = {'sessions': evals, 'distinct_configurations': len(nontrivial), 'oracle_checks': totals,
+    v.coverage['matrix'] = {'plan_evaluations': KDF.evaluations, 'sessions': evals, 'distinct_configurations': len(nontrivial), 'oracle_checks': totals,
                             'rule': 'every supported IKE suite once (quick: big MODP groups with one suite each) + seeded configurations over '
                                     '{ESP/AH, child suites, PFS group, mode, IPv4/IPv6, PSK/RSA, equal/reversed preference orders}, each '
                                     'followed by the history add / rekey-child / rekey-IKE from either side; judged by the wire oracle',
